@@ -14,6 +14,7 @@ import (
 	"encoding/json"
 	"fmt"
 	"hash/fnv"
+	"math"
 	"reflect"
 	"runtime"
 	"sort"
@@ -129,6 +130,14 @@ type Plan interface {
 // position is a Go value of a type the generated type switch does not know (user code returning an
 // unexpected implementation of the union's Go interface). Only probes that registered such a type
 // (RegisterRogue) are affected, and only plans that implement this interface.
+// NonFinitePlan: a plan that lets NULLABLE Float positions hold NaN / +Inf / -Inf, values that
+// have no JSON form: gqlgen's Float marshaler fails for them when the payload is written (null at
+// that position plus one error with its path). At a non-null position that late failure cannot
+// propagate any more, so the workloads keep to nullable positions.
+type NonFinitePlan interface {
+	NonFinite(k Key, pos string) bool
+}
+
 type RoguePlan interface {
 	Rogue(k Key, pos string) bool
 }
@@ -165,9 +174,11 @@ type SeedPlan struct {
 	NullPermille int
 	DirPermille  int // split evenly between error and null outcomes
 	MaxList      int
-	SchedMode    int              // 0 none, 1 random yields, 2 delay by hash, 3 reverse, 4 straggler, 5 slow (ms) delay by hash
-	ListPermille int              // resolver returns a list of three errors
-	ForceFault   map[string]Fault // Key.String() -> fault
+	SchedMode    int // 0 none, 1 random yields, 2 delay by hash, 3 reverse, 4 straggler, 5 slow (ms) delay by hash
+	ListPermille int // resolver returns a list of three errors
+	// NonFinitePermille: share of nullable Float positions holding NaN / +Inf / -Inf
+	NonFinitePermille int
+	ForceFault        map[string]Fault // Key.String() -> fault
 	// FaultInInterceptor: the resolver faults of this plan are raised by the field interceptor that
 	// wraps the resolver (after the resolver returned) instead of by the resolver itself
 	FaultInInterceptor bool
@@ -178,6 +189,10 @@ type SeedPlan struct {
 
 func (p *SeedPlan) r(parts ...string) uint64 {
 	return H(append([]string{strconv.FormatUint(p.Seed, 10)}, parts...)...)
+}
+
+func (p *SeedPlan) NonFinite(k Key, pos string) bool {
+	return p.NonFinitePermille > 0 && int(p.r("nonfinite", k.String(), pos)%1000) < p.NonFinitePermille
 }
 
 func (p *SeedPlan) Fault(k Key) Fault {
@@ -712,6 +727,11 @@ func (e *Env) Value(plan Plan, k Key, pos string, t *ast.Type, rt reflect.Type) 
 		vals := def.EnumValues
 		return &Val{Kind: KScalar, Scalar: vals[H("enum", k.String(), pos)%uint64(len(vals))].Name}
 	default:
+		if def.Name == "Float" && !t.NonNull && (rt.Kind() == reflect.Float64 || rt.Kind() == reflect.Ptr && rt.Elem().Kind() == reflect.Float64) {
+			if np, ok := plan.(NonFinitePlan); ok && np.NonFinite(k, pos) {
+				return &Val{Kind: KScalar, Scalar: []float64{math.NaN(), math.Inf(1), math.Inf(-1)}[H("nonfinitepick", k.String(), pos)%3]}
+			}
+		}
 		return &Val{Kind: KScalar, Scalar: scalarFor(def.Name, H("scalar", k.String(), pos))}
 	}
 }
